@@ -340,6 +340,8 @@ type kern struct {
 	reused  int                     // inode numbers handed out again for another node after a complete forget
 	calls   int
 	crashed bool
+	// orphNode: the model node of an inode whose name is gone while the kernel still references it
+	orphNode map[fuseops.InodeID]*mnode
 }
 
 func newKern(fs fuseutil.FileSystem) *kern {
@@ -501,12 +503,18 @@ func (k *kern) forget(ino fuseops.InodeID, n uint64, split bool) error {
 }
 
 // orphaned is called after unlink/rmdir/replace: the name is gone, the inode stays until forgotten
-func (k *kern) orphaned(parent fuseops.InodeID, name string) {
+func (k *kern) orphaned(parent fuseops.InodeID, name string, node *mnode) {
 	key := dkey{parent, name}
 	if ino, ok := k.dc[key]; ok {
 		if h := k.held[ino]; h != nil {
 			h.orphan = true
 			h.desc += " (unlinked)"
+			if node != nil {
+				if k.orphNode == nil {
+					k.orphNode = map[fuseops.InodeID]*mnode{}
+				}
+				k.orphNode[ino] = node
+			}
 		}
 		delete(k.dc, key)
 	}
